@@ -7,7 +7,7 @@ use flatty_base::{
     emplacer::Emplacer,
     error::{Error, ErrorKind},
     traits::{Flat, FlatBase, FlatDefault, FlatSized, FlatUnsized, FlatValidate},
-    utils::{floor_mul, max, mem::slice_ptr_len},
+    utils::{ceil_mul, floor_mul, max, mem::slice_ptr_len},
 };
 use stavec::GenericVec;
 
@@ -98,7 +98,7 @@ where
     const MIN_SIZE: usize = Self::DATA_OFFSET;
 
     fn size(&self) -> usize {
-        Self::DATA_OFFSET + T::SIZE * self.len()
+        ceil_mul(Self::DATA_OFFSET + T::SIZE * self.len(), Self::ALIGN)
     }
 }
 
